@@ -33,7 +33,7 @@ class SimNet:
         self.finished_step = {}
         self.errors = []                    # (step, action, computation, exception repr, frame)
         self.sent = []                      # (seq, step, src, dst, type)
-        self.delivered = []                 # (step, src, dst, seq)
+        self.delivered = []                 # (step, src, dst, seq, msg)
         self.periodic = []                  # [period, callback, active]
         self.seq = 0
         self.step = 0
@@ -43,6 +43,7 @@ class SimNet:
         self.on_finished = None             # optional callback(name)
         self.after_step = None              # optional callback(simnet)
         self.wire_failures = []
+        self.step_kind = None               # kind of the action being run (start/deliver/lane/tick)
         self.halt = False                   # an after_step callback may set it to end the run
         self.trace = None                   # set to [] to keep (seq, step, src, dst, msg, sender cycle)
 
@@ -125,6 +126,7 @@ class SimNet:
 
     def _run_action(self, act):
         kind = act[0]
+        self.step_kind = kind
         try:
             if kind == "start":
                 name = act[1]
@@ -134,13 +136,13 @@ class SimNet:
             elif kind == "deliver":
                 _, src, dst = act
                 seq, msg = self.channels[(src, dst)].popleft()
-                self.delivered.append((self.step, src, dst, seq))
+                self.delivered.append((self.step, src, dst, seq, msg))
                 self._inside = dst
                 self.comps[dst].on_message(src, msg, float(self.step))
             elif kind == "lane":
                 dst = act[1]
                 seq, src, msg = self.lane[dst].popleft()
-                self.delivered.append((self.step, src, dst, seq))
+                self.delivered.append((self.step, src, dst, seq, msg))
                 self._inside = dst
                 self.comps[dst].on_message(src, msg, float(self.step))
             elif kind == "tick":
